@@ -365,5 +365,34 @@ def run(ctx):
                 ctx.count('stall_budget_histories')
             else:
                 eval_stress(ctx, r, j[2][1])
+    # ---- the budget after bidib_send_sys_reset in mid-session (normal mode): requests that were outstanding when the tables were reset do not
+    # count any more - what fits the full 48 bytes goes out
+    from .C01 import TESTCFG, bus_lines as c01_bus
+    STRG = model.C('MSG_STRING_GET')
+    rj = []
+    for k in range(ctx.n(6, 120)):
+        rng = ctx.sub_rng('c03reset', k)
+        ad = rng.choice([(0, 0, 0), (5, 0, 0), (5, 6, 0)])
+        nbefore = rng.choice([1, 1, 2])
+        sc = Scn(seed=ctx.seed * 29 + k, watchdog=240000)
+        sc.add(*c01_bus([(0, 0, 0), (5, 0, 0), (5, 6, 0)]), f'start {TESTCFG} 0', 'quiesce', f'bus policy {STRG:02x} never')
+        for i in range(nbefore):
+            sc.add(call('bidib_send_string_get', ad[0], ad[1], ad[2], 0, i, 0))
+        sc.add('flush', 'quiesce', 'mark c0', 'reset', 'quiesce', 'flush', 'quiesce', 'mark c1',
+               call('bidib_send_string_get', ad[0], ad[1], ad[2], 0, 7, 0), 'flush', 'quiesce', 'mark c2', 'stop')
+        rj.append((sc.text(), ad))
+    rres = runner.run_many('asan', [(i, j[0]) for i, j in enumerate(rj)], timeout=600)
+    from .. import batch
+    for j, r in zip(rj, rres):
+        meta = {'kind': 'reset-budget', 'node': j[1]}
+        if ctx.generic_failures(r, meta) or runner.outcome(r) != 'ok':
+            continue
+        seen = batch.split_by_marks(r.events)
+        got = [e for e in seen.get(1, []) if e.get('e') == 'txm' and e['type'] == STRG and tuple(e['addr']) == tuple(j[1]) and e['data'].startswith('0007')]
+        ctx.evaluations += 1
+        ctx.count('reset_budget_cases')
+        if len(got) != 1:
+            ctx.violation('not-resumed', 'after-reset', f'node {j[1]}: a 30-byte request submitted after bidib_send_sys_reset (requests from before the reset unanswered) is on the wire {len(got)} times - '
+                          f'the budget of the new table is 48 bytes', r.scenario, r.flavour, meta)
     ctx.sample({'kind': jobs[0][2][3]['kind'], 'nodes': jobs[0][2][3]['nodes'], 'scenario_head': jobs[0][1].split('\n')[7:22]})
     return ctx.finish(min_eval=100, min_nontrivial=20)
